@@ -206,6 +206,10 @@ Theorem C17_loader_keeps_no_state : forall fn x w, In (fn, x, w) gen_loader_stat
 Proof. exact (loader_stateless_spec gen_loader_state (proj1 gen_loader_stateless)). Qed.
 Print Assumptions C17_loader_keeps_no_state.
 
+Theorem C17_comparison_closures_as_audited : cmp_closures_okb gen_cmp_closures = true.
+Proof. exact gen_cmp_closures_ok. Qed.
+Print Assumptions C17_comparison_closures_as_audited.
+
 (* so the groups of a file are loaded independently: together = one by one *)
 Theorem C17_load_together_is_one_by_one : forall gs,
   load_groups gen_tables gs = flat_map (fun g => load_groups gen_tables [g]) gs.
